@@ -18,6 +18,7 @@
  *   rehash                  cstl_hash_rehash (forces completion)
  *   arm <m> plus <d> <key>  arm the hash for table size m (0 = any), key (-1 = any)
  *   arm <m> max <key>
+ *   every <n>               (before arm) only every n-th matching call of the armed hash answers out of range
  *   xinsert <k> | xfind <k> | xerase <k>
  *                           the operation under test.  Prints
  *                           "pre pending=<0|1> count=<n> rhcount=<n> cap=<n> size=<n>",
@@ -46,11 +47,14 @@ static struct cstl_hash H;
 static int armed, arm_max;
 static size_t arm_m, arm_d;
 static long long arm_key;
+/* `every n`: only every n-th matching call answers out of range (a hash function that misbehaves intermittently) */
+static int arm_every = 1, arm_seen;
 
 static size_t hf(const size_t k, const size_t m)
 {
     if (armed && (arm_m == 0 || arm_m == m)
-        && (arm_key < 0 || (size_t)arm_key == k)) {
+        && (arm_key < 0 || (size_t)arm_key == k)
+        && (++arm_seen % arm_every) == 0) {
         /* "hi": a value >= 2^32 whose low 32 bits are an in-range index (catches a range check done on a narrower type);
          * "hi2": the in-range index shifted into the high half */
         const size_t v = arm_max == 1 ? SIZE_MAX
@@ -99,7 +103,7 @@ static void run_case(const struct h_case * c)
     int i;
 
     npool = 0;
-    armed = 0;
+    armed = 0; arm_every = 1; arm_seen = 0;
     cstl_hash_init(&H, offsetof(struct elem, hn));
     for (i = 0; i < c->nlines; i++) {
         const struct h_line * l = &c->lines[i];
@@ -117,8 +121,10 @@ static void run_case(const struct h_case * c)
             (void)cstl_hash_find(&H, a, NULL, NULL);
         } else if (h_weq(l, 0, "rehash")) {
             cstl_hash_rehash(&H);
+        } else if (h_weq(l, 0, "every")) {
+            arm_every = a > 0 ? (int)a : 1;
         } else if (h_weq(l, 0, "arm")) {
-            armed = 1;
+            armed = 1; arm_seen = 0;
             arm_m = a;
             if (h_weq(l, 2, "hi") || h_weq(l, 2, "hi2")) {
                 arm_max = h_weq(l, 2, "hi") ? 2 : 3; arm_d = 0; arm_key = h_int(l, 3);
